@@ -1133,6 +1133,11 @@ class Interp(StmtMixin):
             vcls = "dict_str_str" if (kv.ty == "str" and vv.ty == "str") else ("dict_str_ref" if kv.ty == "str" and (is_ref(vv.ty) or vv.ty == "int") else None)
             if is_ref(vv.ty) and f"dict_{vv.ty[1]}" in models.CLASSES:
                 vcls = f"dict_{vv.ty[1]}"
+            if is_ref(vv.ty):
+                # the contract says which dictionary class holds values of this class (e.g. signatures: str -> PDDLType in dict_str_ref)
+                declared = [d for d, el in self.c.get("dict_values", {}).items() if el == vv.ty[1]]
+                if declared:
+                    vcls = declared[0]
             if vcls is None:
                 raise Unsupported(f"dict comprehension of {kv.ty} -> {vv.ty}")
             d = self.alloc(s3, vcls)
